@@ -45,7 +45,8 @@ CHECKS = {
               "C09_string_std, C09_range (buffer has exactly count elements; never sized from a second look), C09_ptr (pointer fetched once; null reaches the verifier as nullptr and is never dereferenced; the pointee is read at the fetched address), "
               "for every adversary, memory and pointer source (application memory / sandbox cell). Tied to the code without a source hook: the region is PROT_NONE while rlbox runs, each machine read faults, the trap flag single-steps it, "
               "the adversary acts after read k for every k (thorough: every ordered pair of points for every pair of actions), 11 variants x 2 pointer sources x 7 actions; each observed outcome must be in the model's outcome set over all "
-              "byte-level schedules and satisfy the oracle (application memory, unchanged after the region is overwritten, terminator inside a buffer of known size). One genuine defect found and repaired (5202ca0)."),
+              "byte-level schedules and satisfy the oracle (application memory, unchanged after the region is overwritten, terminator inside a buffer of known size; when the pointer cell was retargeted before anything was range-checked, the bytes delivered are those of the extent that was checked). "
+              "One genuine defect found and repaired (5202ca0)."),
         note=NOTE + "Partial: atomicity of one machine read is assumed; the correspondence scenario is fixed (the theorems are not); a null struct pointer dereferenced by copy_and_verify (no window involved) is C03/F7 territory and is not judged here."),
     "C18": dict(
         engine="thr", design_ref="DESIGN.md §6 C18",
@@ -63,7 +64,7 @@ CHECKS = {
               "(no sampling) on convertFund, which C06_model_is_translated_source proves equal to the meaning of the chain parsed from the source on every run "
               "(C06_translated_chain_faithful states C06 about that chain directly); additionally tied to the code by block-exhaustive "
               "differential runs (all sources <=16 bit, thorough: all 2^32 values of every 32-bit source against a 128-bit oracle) and boundary/random "
-              "runs through the raw helper and the six public paths on three ABIs."),
+              "runs through the raw helper and the six public paths on three ABIs, raw values of another integer type (`tvstore_x`) and copies between sandbox references of different integer types (`tvtv`)."),
         note=NOTE + "Out of scope: bool destination from non-bool source (never produced by the ABI mapping; C06_bool_witness)."),
     "C05": dict(
         engine="ptr", design_ref="DESIGN.md §6 C05",
@@ -79,7 +80,8 @@ CHECKS = {
         technique="Lean 4 theorems on the range-check arithmetic (division/mod lemmas + omega) + differential execution with whole-region byte diffs + interval oracle",
         text=("Proof: C10_sound (a checked non-empty range never wraps and lies in one aligned block, for every start and every size_t extent), "
               "C10_sound_region/_outside (wholly inside / wholly outside a region), C10_complete(_region) (every non-empty in-block request passes), "
-              "C10_ops_memset/memcpy, C10_too_large, C10_null_start, C10_counted and C10_safe_pointer (element-counted variants, no side condition after the repairs). "
+              "C10_ops_memset/memcpy, C10_too_large, C10_null_start, C10_counted and C10_safe_pointer (element-counted variants, no side condition after the repairs), "
+              "C10_grant_untrusted_allocator (copy_memory_or_grant_access writes only inside the region whatever the allocator inside the sandbox returns; op `grantf`). "
               "Tied to the code by ~6k-10k boundary ops over all nine operations with byte diffs of both regions and the application arena. "
               "Four genuine defects were found by this check and repaired (fix: commits bd117b1, 2d57aba, 8abe039, 66ca6e3)."),
         note=NOTE + "For application-side ranges 'outside' is judged per 2^16-aligned block (what a mask-based backend can tell)."),
@@ -106,6 +108,8 @@ CHECKS = {
               "+ - [] & * -> casts opaque loads malloc for chains of any length; member designation under the explicit side condition that the aggregate lies inside), "
               "C03_designation_witness (the full statement is false: known finding F7). Tied to the code by all 65536 representations x 5 positions x 2 live sandboxes (block hash), "
               "5000-30000 random derivation chains, expression probes judged by the compiler, thorough: all 2^32 representations in the cell position. "
+              "C03_malloc (allocation with an untrusted allocator behind a backend that does not clamp: null, or first and last element inside). Further ops: increments/decrements in the chains, "
+              "`malf` (forced allocator result), `nrep` (a backend whose representation type is `void*`: every 64-bit pattern in four positions). "
               "Two defects found here were repaired (66bbbbc null index, a71b992 number + pointer)."),
         note=NOTE + "Theorems are conditional on the backend laws (Sbx.wf: aligned region, mask translation) which vsbx satisfies by construction; F7 is a listed known finding."),
     "C04": dict(
@@ -114,14 +118,18 @@ CHECKS = {
         text=("Proof: C04_rt_addr, C04_rt_rep (round trips for every in-region address / canonical representation), C04_null, C04_nonnull, C04_noctx_agrees and C04_cell_relative "
               "(the context-free path given the cell's own address equals the path with context on the owning sandbox), C04_find_own / C04_find_none (registry lookup with any number of "
               "pairwise-disjoint live sandboxes in any order). Tied to the code by every offset of the region stored/round-tripped in a pointer cell, all store/load positions, "
-              "two live ABI-A sandboxes plus an ABI-B sandbox with host-width guest pointers, function-pointer cells through the registry."),
+              "two live ABI-A sandboxes plus an ABI-B sandbox with host-width guest pointers, function-pointer cells through the registry; C04_fn_null / C04_fn_nonnull / C04_fn_roundtrip "
+              "(table-based function-pointer representation: 0 is null and only null, with and without the sandbox context; op `fctx`: call results and callback arguments). Address slots are not a "
+              "multiple of 2^32 apart, and a pointer into another live sandbox stored in this sandbox's cell must be encoded relative to THIS sandbox (judged by the oracle)."),
         note=NOTE + "The first byte of a region has representation 0 (the sandbox's null) and is excluded explicitly."),
     "C07": dict(
         engine="mem", design_ref="DESIGN.md §6 C07",
         technique="Lean 4 frame/round-trip/locality theorems on a byte-level memory model (little-endian encode/decode lemmas by induction) + differential execution with region hashes",
         text=("Proof: C07_frame (a store changes no byte outside [a, a+guestSize)), C07_roundtrip (load after store returns the value, using the C06 theorems), C07_decode (a load depends only on those "
               "bytes), C07_footprint_is_layout, for every integer type, every well-formed ABI, every address and memory. Tied to the code by stores/loads of 14 types at all alignments and at the "
-              "region end with window + whole-region hash comparison, five load paths, whole-array (multi-dimensional) stores. Two defects found here were repaired (ec0ed44, cb0dd04)."),
+              "region end with window + whole-region hash comparison, five load paths, whole-array (multi-dimensional) stores, the 32 bytes around every kind of pointer store (`pfoot`: data, null constant, "
+              "null tainted, array element, struct field, whole array/struct), copies between sandbox references of different integer types on three ABIs with a frame check (`tvtv`). "
+              "Two defects found here were repaired (ec0ed44, cb0dd04)."),
         note=NOTE + "float/double/pointer/struct footprints are checked under C08/C04; bool loads of non-canonical bytes are not judged."),
     "C13": dict(
         engine="hist", design_ref="DESIGN.md §6 C13",
